@@ -40,6 +40,9 @@ func vf12GenCase13(t *rapid.T, o *vfOffer) *vf12Case {
 	kinds := []string{"suite13-unoffered", "suite12-in-13", "suite-grease", "group-no-share", "group-unlisted", "group-grease",
 		"hrr-group-unlisted", "hrr-group-grease", "alpn-unoffered", "compression", "psk-index", "sessionid", "certcomp-unadvertised"}
 	kind := kinds[rapid.IntRange(0, len(kinds)-1).Draw(t, "kind")]
+	if len(h.SessionID) == 0 && rapid.IntRange(0, 2).Draw(t, "kind_sessionid_for_empty_id") == 0 {
+		kind = "sessionid" // hellos without session id are rare in this generator: judge the echo rule on them often
+	}
 	c := &vf12Case{Kind: kind, Script: &vsrvScript{}}
 	s := c.Script
 	offeredSuites := map[uint16]bool{}
@@ -282,6 +285,18 @@ func TestVerifC12TLS13(t *testing.T) {
 		if !p.Offer.HasVersion(VersionTLS13) {
 			st.Class("no-tls13")
 			return
+		}
+		if src.Kind != "golang" && p.Offer.Hello.PSK() == nil && rapid.IntRange(0, 5).Draw(rt, "empty_session_id") == 0 {
+			// a hello without legacy session id (documented edit of Hello.SessionId after the build; QUIC clients send
+			// none either): "echo" then means an empty one, everything else is a value the client did not send
+			p.UC.HandshakeState.Hello.SessionId = nil
+			if err := p.UC.BuildHandshakeState(); err != nil {
+				st.Violation(rt, "%s: rebuild after clearing Hello.SessionId: %v", src, err)
+			}
+			p.Offer = vfOfferOf(vfParseClientHello(p.UC.HandshakeState.Hello.Raw), p.UC.config.MinVersion)
+			if len(p.Offer.Hello.SessionID) == 0 {
+				st.Class("hello-without-session-id")
+			}
 		}
 		c := vf12GenCase13(rt, p.Offer)
 		if c == nil {
